@@ -5,7 +5,7 @@ from . import tables
 from .flow import lvalue_key, is_assign, _strip_casts
 
 
-def slots_of(stmt, item_key):
+def slots_of(stmt, item_key, state=None):
     """operand slots of `item` read by a statement: item->number, (item+k)->number, item[k].number,
     *(double*)item, *(Vec2*)item, points.items = (Vec2*)item with points.count = m."""
     slots = set()
@@ -42,6 +42,11 @@ def slots_of(stmt, item_key):
                 vec_items = True
         if is_assign(x) and x.child('lhs').text().endswith('.count') and x.child('rhs').cv is not None:
             vec_count = x.child('rhs').cv
+    if state is not None:
+        state['items'] = state.get('items', False) or vec_items
+        if vec_count is not None:
+            state['count'] = vec_count
+        vec_items, vec_count = state['items'], state.get('count')
     if vec_items and vec_count is not None:
         slots |= set(range(2 * vec_count))
     return slots
@@ -65,6 +70,7 @@ def check_commands(ctx, fn, rule='R-CONSUME'):
         guard = None
         adv = None
         slots = set()
+        vstate = {}
         call = None
         rel = None
         for s in stmts:
@@ -76,7 +82,7 @@ def check_commands(ctx, fn, rule='R-CONSUME'):
             if s.k == 'CompoundAssignOperator' and s.op == '+=' and lvalue_key(s.child('lhs')) == ikey:
                 adv = s.child('rhs').cv
                 continue
-            slots |= slots_of(s, ikey)
+            slots |= slots_of(s, ikey, vstate)
             if s.k == 'CXXMemberCallExpr':
                 call = (s.callee or '').split('::')[-1]
                 for a in s.args:
